@@ -48,8 +48,15 @@ META = dict(
          "first diagram is the root's (invariant: the root is registered exactly once with index 1, every other "
          "element gets an index >= 2, diagram keys are distinct); partial: unnamed roots off every cycle and "
          "custom-named roots with only leaf children are first too but are not covered; the two registered "
-         "root witnesses violate the hypothesis. "
-         "no_empty_placeholder, tokens_covered are NOT proved in "
+         "root witnesses violate the hypothesis. no_empty_placeholder_partial: for ALL grammars in which every "
+         "element draws something (decidable drawsAll: shown, children exist, dispatch creates a partial, a one-item "
+         "wrapper has a child - excludes the registered Opt(Empty()) shape), all options and returning fuels, every "
+         "EditablePartial of the final converter state has all item/items slots filled with references (conv_HS: a "
+         "returning call returns an item, never loses a reference, leaves its partials filled); this is a statement "
+         "about the heap that to_railroad resolves, NOT yet noEmptyPlaceholder of the resolved trees: missing are "
+         "(1) the diagram content copied out of a Group partial at extraction, (2) acyclicity/in-bounds of the "
+         "partial heap for resolve. "
+         "tokens_covered and the tree-level no_empty_placeholder are NOT proved in "
          "general: they are decided by the oracle on the real code over generated grammars and by the "
          "model-vs-code correspondence.",
     note="Trusted: Lean kernel; axioms propext/Classical.choice/Quot.sound; the transcription of "
@@ -77,6 +84,10 @@ THEOREMS = [
     "PP.Diagram.named_cycle_ok",
     "PP.Diagram.links_resolve_partial",
     "PP.Diagram.root_first_partial",
+    "PP.Diagram.no_empty_placeholder_partial",
+    "PP.Diagram.no_empty_placeholder_partial'",
+    "PP.Diagram.conv_HS",
+    "PP.Diagram.conv_step",
 ]
 
 STUB_DIR = Path(__file__).resolve().parent.parent / "railroad_stub"
